@@ -108,6 +108,8 @@ def scenario(k: Kernel, plan, obs):
     pools.multiprocessing = MPShim()
     maps.multiprocessing = MPShim()
     from sim.prims import install_threading_shims
+    from sim.kernel import patch_threading
+    patch_threading(k)      # a thread the code under test may start becomes a task of the kernel
     import windpyutils.buffers as buffers_mod
     install_threading_shims(k, [pools, maps, workers, buffers_mod])
     if plan["mode"] == "FunctorMap":
